@@ -723,6 +723,7 @@ func avahiCfg(repo string) (respectsShutdown, reannounceCurrent bool) {
 func main() {
 	repo := flag.String("repo", "/repo", "repository root")
 	out := flag.String("out", "", "directory for the generated Lean files (default: print)")
+	withLocks := flag.Bool("locks", false, "also regenerate LockFacts.lean (type-checks five packages)")
 	withSites := flag.Bool("sites", false, "also regenerate PanicFacts.lean (type-checks four packages, ~12 s)")
 	flag.Parse()
 	names, vals := stateNumbers(*repo)
@@ -835,6 +836,14 @@ func main() {
 		files["AvahiFacts.lean"] = fmt.Sprintf("/- GENERATED by /verif/extract from /repo — do not edit. -/\nimport ShipVerif.Model.Avahi\nnamespace ShipVerif.Generated\n\n/-- mdns/avahi.go: design facts of the reconnect loop -/\ndef avahiCfg : ShipVerif.Avahi.Cfg := { reconnectRespectsShutdown := %v, reannounceCurrent := %v }\n\nend ShipVerif.Generated\n", a, b)
 	}
 	files["AsyncFacts.lean"] = fmt.Sprintf("/- GENERATED by /verif/extract from /repo — do not edit. -/\nimport ShipVerif.Model.View\nnamespace ShipVerif.Generated\n\n/-- mdns/mdns.go: reports are delivered under a mutex and dropped when a newer snapshot was delivered -/\ndef mdnsReportCfg : ShipVerif.Async.Cfg := { guarded := %v }\n\nend ShipVerif.Generated\n", mdnsReportGuarded(*repo))
+	if *withLocks {
+		lf, err := lockFactsLean(*repo)
+		if err != nil {
+			fmt.Fprintln(os.Stderr, "extract:", err)
+			os.Exit(1)
+		}
+		files["LockFacts.lean"] = lf
+	}
 	if !*withSites {
 	} else if pf, err := panicFactsLean(*repo); err != nil {
 		fmt.Fprintln(os.Stderr, "extract:", err)
